@@ -705,3 +705,53 @@ func (f FilterSpec) legacyBlacklistLine() (string, bool) {
 	}
 	return set[0].k + " " + set[0].v, true
 }
+
+// unrelatedChurn adds and removes table entries that match no generated name (prefix "zzzz.never."): whatever else the table holds
+// -- validation levels, order validation, the other entries -- must be exactly what it was afterwards.  kinds: black route rewriter agg.
+func unrelatedChurn(t *table.Table, kinds []string) error {
+	for _, k := range kinds {
+		m, err := matcher.New("zzzz.never.", "", "", "", "", "")
+		if err != nil {
+			return err
+		}
+		switch k {
+		case "black":
+			t.AddBlacklist(&m)
+			simrt.Yield("churn.added")
+			snap := t.Snapshot()
+			simrt.Yield("churn.snapshot")
+			err = t.DelBlacklist(len(snap.Blacklist) - 1)
+		case "route":
+			t.AddRoute(&capRoute{key: "zzzz-churn", m: &m})
+			simrt.Yield("churn.added")
+			err = t.DelRoute("zzzz-churn")
+		case "rewriter":
+			rw, rerr := rewriter.New("zzzz.never.", "y", "", -1)
+			if rerr != nil {
+				return rerr
+			}
+			t.AddRewriter(rw)
+			simrt.Yield("churn.added")
+			snap := t.Snapshot()
+			simrt.Yield("churn.snapshot")
+			err = t.DelRewriter(len(snap.Rewriters) - 1)
+		case "agg":
+			a, aerr := aggregator.New("sum", m, "zzzz.out", false, 60, 120, false, t.In)
+			if aerr != nil {
+				return aerr
+			}
+			t.AddAggregator(a)
+			simrt.Yield("churn.added")
+			snap := t.Snapshot()
+			simrt.Yield("churn.snapshot")
+			err = t.DelAggregator(len(snap.Aggregators) - 1)
+		}
+		simrt.Yield("churn.removed")
+		if err != nil {
+			return fmt.Errorf("removing the %s entry added a moment ago: %v", k, err)
+		}
+	}
+	return nil
+}
+
+var churnKinds = []string{"black", "route", "rewriter", "agg"}
